@@ -86,10 +86,14 @@ type Case struct {
 	// assembly of a fresh process (memoised per text), so that state a long-lived worker may have picked
 	// up from earlier assemblies cannot make the reference wrong in the same way as the program under test
 	FreshRefs bool
-	Judge     func(rs []*Result) Verdict
-	Path      []int
-	Cost      int
-	Index     int
+	// FreshAll: Srcs[0] as well is assembled as the only assembly of a fresh process (a defect that needs a clean
+	// process-wide state to show - e.g. a cache filled by whichever statement came first - is masked on a
+	// long-lived worker that has seen thousands of programs)
+	FreshAll bool
+	Judge    func(rs []*Result) Verdict
+	Path     []int
+	Cost     int
+	Index    int
 }
 
 // Scenario is one bounded space + oracle.
